@@ -38,15 +38,27 @@
     again, so the theorems apply to resumed calls); `shift_uriparams`, `shift_urihdrs` (plain equations for every
     verdict; stored elements, element in progress moved; counts, type masks unchanged), `*_new`, `*_reset`,
     `*_resumable`.
-  NOT yet proved (decided by the shift oracle on generated / hostile inputs — random and bounded-exhaustive — at
-  several `k` with junk, and by the correspondence): ParseHdrLine, ParseHeaders, ParseSIPMsg (in progress:
-  Proofs/ShiftMsg.lean), and relocation of parsed URIs (C18 covers AdjustOffs).
+  * **header line, header block, whole message** (`Sipsp.Proofs.ShiftMsg`): `shift_hdrline`, `shift_hdrline_exact`,
+    `shift_hdrline_resume` (ParseHdrLine with any legitimate header / values pair — new, or returned with MoreBytes —,
+    every typed value parser included: offset + k, same verdict, name / value / every typed value moved),
+    `shift_headers` (stored headers, first-of-type shortcuts, count, type flags), `shift_msg`, `shift_msg_exact`,
+    `shift_msg_ok`, `shift_msg_init`, `shift_msg_resume` (ParseSIPMsg, every flag combination, objects in every
+    non-terminal state, one call from Init and resumed calls: first line, header list, values, body, message start,
+    Buf / RawMsg extents moved by k; counts, flags, numbers, state unchanged; `msg_init_legitimate`,
+    `msg_translation_scalars`). Exact after non-error verdicts; after an error verdict equal up to the never-reported
+    restart offset of the name-addr value being parsed (a `decide` test shows the plain form is false there).
+    Observed while proving: the "zero field = not set" convention is not position independent for the header NAME in
+    two intermediate error states (`:x` at offset 0 leaves name ⟨0,0⟩, behind junk ⟨k,0⟩ — an empty name after an
+    error verdict, never a reported value); a status line `SIP/2.0 000 x` has Status 0, so Request() is true for it.
+  NOT proved: calls on already-terminated objects (an error is terminal, C12 covers re-use after Reset); relocation of
+  parsed URIs is C18 (AdjustOffs).
 -/
 import Sipsp.Proofs.Shift
 import Sipsp.Proofs.ShiftFLine
 import Sipsp.Proofs.ShiftNA
 import Sipsp.Proofs.ShiftLists
 import Sipsp.Proofs.ShiftParams
+import Sipsp.Proofs.ShiftMsg
 
 namespace Sipsp.C11
 open Sipsp
@@ -253,5 +265,63 @@ theorem shift_uriparams_resumable : type_of% @Sipsp.parseAllURIParams_shiftEntry
 
 /-- [EXPORT C11] after MoreBytes the list returned by ParseAllURIHdrs is a legitimate argument at the returned offset -/
 theorem shift_urihdrs_resumable : type_of% @Sipsp.parseAllURIHdrs_shiftEntry := @Sipsp.parseAllURIHdrs_shiftEntry
+
+/-! ### header line, header block, whole message (proved in `Sipsp.Proofs.ShiftMsg`) -/
+
+/-- **ParseHdrLine is position independent**: for a legitimate (header, values) pair (`HlAll`), the call on
+    `pre ++ t` at `pre.size + o` with the moved header and values returns the moved result: offset moved by
+    `pre.size`, the same verdict, and the moved header and values — exactly after OK / MoreBytes / Empty, and up to
+    the stale (never reported) restart offset of the name-addr value that was being parsed after an error verdict
+    (`smRelHL`). After OK and MoreBytes the returned pair satisfies the shift invariant `HlSh` again at the
+    returned offset. -/
+theorem shift_hdrline : type_of% @Sipsp.parseHdrLine_shift := @Sipsp.parseHdrLine_shift
+
+/-- … in the plain form after OK / MoreBytes / Empty -/
+theorem shift_hdrline_exact : type_of% @Sipsp.parseHdrLine_shift_exact := @Sipsp.parseHdrLine_shift_exact
+
+/-- **after MoreBytes the returned pair is a legitimate argument again**, at the returned offset, also once more
+    bytes `s` have arrived (`hlPending`: the value a suspended header waits for is not finished yet — true of every
+    pair returned with MoreBytes and of every new header) -/
+theorem shift_hdrline_resumable : type_of% @Sipsp.parseHdrLine_shiftEntry := @Sipsp.parseHdrLine_shiftEntry
+
+/-- … hence **the resumed call is position independent too** -/
+theorem shift_hdrline_resume : type_of% @Sipsp.parseHdrLine_shift_resume := @Sipsp.parseHdrLine_shift_resume
+
+/-- **ParseHeaders is position independent**: from a legitimate pair the call on `pre ++ t` at `pre.size + offs`
+    with the moved header list and values returns the offset moved by `pre.size`, the same verdict, the moved header
+    list (every stored header, the first-of-type table, counts and type flags) and the moved values (exactly after a
+    non-error verdict; up to the stale restart offset of the name-addr value in progress after an error). After
+    MoreBytes the header in progress and the values satisfy `HlSh` at the returned offset. -/
+theorem shift_headers : type_of% @Sipsp.parseHeaders_shift := @Sipsp.parseHeaders_shift
+
+/-- **ParseSIPMsg is position independent**: for every legitimate message object (`MsgAll`: new / produced by Init, or
+    suspended by MoreBytes in the first line, in the header section or before the body), every flag combination and
+    every prefix `pre` with `pre.size + t.size ≤ 65535`, the call on `pre ++ t` at `pre.size + o` with the moved object
+    returns the offset moved by `pre.size`, the same verdict and the moved message object (`shMsg`: first line, every
+    stored header and shortcut, every header value, body, `Buf` / `RawMsg` bookkeeping moved by exactly `pre.size`;
+    status, method numbers, counts, flags, lengths and the state unchanged) — exactly, unless the call ended in the
+    error state, in which case the header values agree up to the stale (never reported) restart offset of the
+    name-addr value that was being parsed (`smRelM`). After MoreBytes the returned object is legitimate again at the
+    returned offset on every grown buffer. -/
+theorem shift_msg : type_of% @Sipsp.parseSIPMsg_shift := @Sipsp.parseSIPMsg_shift
+
+/-- … in the plain form whenever the call did not end in the error state -/
+theorem shift_msg_exact : type_of% @Sipsp.parseSIPMsg_shift_exact := @Sipsp.parseSIPMsg_shift_exact
+
+/-- **a successfully parsed message**: the moved call returns exactly the moved message -/
+theorem shift_msg_ok : type_of% @Sipsp.parseSIPMsg_shift_ok := @Sipsp.parseSIPMsg_shift_ok
+
+/-- **from an Init object, one call**: the object is its own translation -/
+theorem shift_msg_init : type_of% @Sipsp.parseSIPMsg_shift_init := @Sipsp.parseSIPMsg_shift_init
+
+/-- **the resumed call**: a message that ran out of bytes in `t` (parsed from an Init object) and is resumed at the
+    returned offset with the returned object once more bytes `s` have arrived -/
+theorem shift_msg_resume : type_of% @Sipsp.parseSIPMsg_shift_resume := @Sipsp.parseSIPMsg_shift_resume
+
+/-- **every object produced by Init is legitimate** (any previous contents, caller arrays of any capacity or none) -/
+theorem msg_init_legitimate : type_of% @Sipsp.MsgAll_init := @Sipsp.MsgAll_init
+
+/-- what a caller reads from the moved message: the same verdict-independent numbers and flags -/
+theorem msg_translation_scalars : type_of% @Sipsp.shMsg_scalars := @Sipsp.shMsg_scalars
 
 end Sipsp.C11
